@@ -341,6 +341,7 @@ def check_counters(run, db):
 
 
 def run(run):
+    run.rule('R-BUCKET', 'the collection\'s maximum node size and list lookup use one index arithmetic (shared with C02)', floor=8)
     run.rule('R-TERM.stride', 'insert / usable_size / min_block_size agree on the per-node resp. per-chunk stride', floor=4)
     run.rule('R-TERM.offset', 'arena header offset: push/top/pop agree; min_block_size adds exactly it', floor=6)
     run.rule('R-MAXIMA', 'guards compare against the advertised maxima; maxima bottom out in the bounding quantity', floor=20)
@@ -349,6 +350,9 @@ def run(run):
                        'rewrite rules (round-up idioms, max idioms, commutativity).')
     for cfg in common.configs(run):
         db = build.load_db(cfg, log=run.log)
+        from rules import c02
+        if c02.check_buckets(run, db) < 6:
+            run.broke('free_list_array / access policies not found [%s]' % cfg)
         check_small_stride(run, db)
         check_node_lists(run, db)
         check_offsets(run, db)
